@@ -6,7 +6,8 @@
 (*                                                                         *)
 (* A reply method:                                                         *)
 (*   [name, handlers (seq, empty = the method's own name), on, data,       *)
-(*    payload ("raw" | "t1" | "t2" | "t3"), outcome]                       *)
+(*    payload ("raw" | "bin" | "t1" | "t2" | "t3"), outcome]               *)
+(*      ("bin": one Binary parameter without the raw marker)               *)
 (*   data: "none" | "plain" | "opt" | "raw" | "rawopt" | "inst" | "instopt" *)
 (*         (only meaningful on a success method)                           *)
 (* A reply program: [id, methods]                                          *)
@@ -25,6 +26,9 @@ MethodsOn(p, h, on) == {i \in MethodsFor(p, h) : p.methods[i].on = on}
 (* or when one of them claims every outcome                                                  *)
 Excludes(a, b) == a = b \/ a = "always" \/ b = "always"
 
+(* methods sharing a handler name must declare payload parameters of the same types; the raw marker is not a type *)
+PayTypes(sig) == IF sig = "bin" THEN "raw" ELSE sig
+
 (* the documented rules on reply tables (C18) *)
 NoDuplicateHandlerInOneMethod(p) ==
     \A i \in 1..Len(p.methods) : \A a, b \in 1..Len(p.methods[i].handlers) :
@@ -32,7 +36,7 @@ NoDuplicateHandlerInOneMethod(p) ==
 ValidTable(p) ==
     /\ \A h \in AllHandlers(p) : \A i, j \in MethodsFor(p, h) :
           i # j => /\ ~Excludes(p.methods[i].on, p.methods[j].on)
-                   /\ p.methods[i].payload = p.methods[j].payload
+                   /\ PayTypes(p.methods[i].payload) = PayTypes(p.methods[j].payload)
     /\ \A i \in 1..Len(p.methods) : p.methods[i].on # "success" => p.methods[i].data = "none"
 
 (* ---- the observable table ---------------------------------------------- *)
@@ -47,6 +51,8 @@ ReplyOn(p, h) ==
     ELSE IF SuccM(p, h) # 0 THEN "success" ELSE "error"
 
 PayloadSig(p, h) == p.methods[Pick(MethodsFor(p, h))].payload
+(* when the methods of one name disagree on the raw marker, either encoding may be used -- as long as the handlers get the values back *)
+PayloadSigs(p, h) == {p.methods[i].payload : i \in MethodsFor(p, h)}
 DataMode(p, h) == IF SuccM(p, h) = 0 THEN "none" ELSE p.methods[SuccM(p, h)].data
 
 (* ---- dispatch (C07): which method handles a reply, or what happens otherwise *)
